@@ -68,6 +68,20 @@ class Unit(Translator):
         c = self._method_decl_index.get((ot.name, name), [])
         if len(c) > 1 and nargs is not None:
             c = [d for d in c if len(self.fn_params(d)) == nargs] or c
+        if len(c) > 1 and any('mangledName' in d for d in c):
+            c = [d for d in c if 'mangledName' in d]       # instantiations / real methods rather than template patterns
+        targs = getattr(self, '_call_targs', None)
+        if len(c) > 1 and targs:
+            # explicit template arguments as written at the call site: every one must occur in the demangled name
+            def has_all(d):
+                qn = self.fn_qname(d)
+                for t_ in targs.split(','):
+                    w = re.sub(r".*::", '', t_.strip())
+                    w = {'size_t': 'unsigned long', 'std::string': 'basic_string'}.get(w, w)
+                    if not re.search(r"(?<![A-Za-z0-9_])%s(?![A-Za-z0-9_])" % re.escape(w), qn): return False
+                return qn.count(',') + 1 == targs.count(',') + 1 or '<' not in qn
+            c2 = [d for d in c if has_all(d)]
+            if c2: c = c2
         if len(c) > 1 and call is not None:
             rt = call.get('type', {}).get('qualType', '')
             def ret_of(d):
@@ -166,7 +180,25 @@ class Unit(Translator):
             return self._wrap_ret(callee, '%s(%s)' % (cn, ', '.join(a)))
         md = self.decl.get(mid) if mid else None
         if callee is None and md is None and mid:
+            self._call_targs = None
+            try:
+                f = self.srcinfo.get(P.cname, (None,))[0]
+                rg = n.get('range', {})
+                if f and 'offset' in rg.get('begin', {}) and 'offset' in rg.get('end', {}):
+                    txt = self._file_text(f)[rg['begin']['offset']:rg['end']['offset'] + rg['end'].get('tokLen', 1)]
+                    mm = re.search(r"\b%s\s*<(.*)>\s*\([^()]*\)$" % re.escape(mexpr['name']), txt, re.S)
+                    if mm: self._call_targs = mm.group(1)
+            except Exception:
+                pass
             md = self.decl_by_name(mexpr['name'], P, obj, is_arrow, call=n, nargs=len(args))
+            if md is not None and md.get('id') in self.cname_of and any(c_.get('kind') == 'CompoundStmt' for c_ in md.get('inner', []) if c_) and self.is_translatable(md):
+                # the instantiation is in the dump after all (ids of the two dumps differ): call the real function
+                cn = self._callee_cname(P, md)
+                this = P.ex(obj) if is_arrow else P.addr(obj)
+                this = self.adjust_this(P, obj, is_arrow, md, this)
+                a = [this] + P.call_args(md, args)
+                if cn in self.throwing_fns or self.opts.get('all_calls_may_throw'): P.note_throw()
+                return self._wrap_ret(md, '%s(%s)' % (cn, ', '.join(a)))
         if callee is None and md is not None and md.get('kind') == 'CXXMethodDecl' and self.is_translatable(md):
             # declared-only method: pure virtual (bodiless dispatcher) or defined in another translation unit (extern);
             # either way a bodiless function that must get a contract from the spec
@@ -190,7 +222,7 @@ class Unit(Translator):
                 except Exception:
                     targs = None
                 if not (rt and m_ and targs):
-                    raise Unsupported('%s: call of member template %s: instantiation not in the dump and template arguments not found at the call site' % (P.cname, q))
+                    raise Unsupported('%s: call of member template %s: instantiation not in the dump and template arguments not found at the call site (call type %s, candidate %s)' % (P.cname, q, rt, md.get('mangledName')))
                 ot1 = P.ty(obj)
                 if is_arrow and ot1.kind == 'ptr': ot1 = ot1.to
                 ot1 = ot1.strip_ref()
